@@ -7,7 +7,7 @@ Action formats (JSON-able lists):
   ["temp", key, value]                temperature (key pool|air|local|ncc; value float|None), history flushed
   ["ph", v] ["orp", v]                EZO readings (history flushed)
   ["elevation", deg]                  sun elevation
-  ["cover", "stall"|"free"|rate]      cover behaviour
+  ["cover", "stall"|"free"|rate]      cover behaviour;  ["cover", "fail", n]: the next n position reads return None
   ["dac_fault", n]                    next n DAC writes raise OSError (true = always)
   ["race", actor, topic, payload, delta]   the command is queued `delta` s before `actor`'s next timer fires, the
                                       timer fires while the command is still undelivered (stale-timer race), then settle
@@ -129,6 +129,8 @@ class Runner:
                 s.arduino_dev.stalled = True
             elif a[1] == "free":
                 s.arduino_dev.stalled = False
+            elif a[1] == "fail":
+                s.arduino_dev.fail_position = int(a[2])  # the next n position reads fail (the driver returns None)
             else:
                 s.arduino_dev._update()
                 s.arduino_dev.rate = float(a[1])
